@@ -17,25 +17,29 @@ RULE = ('rand: seeded sessions (mode x AES ctr/ctrcbc impl x GHASH impl x key si
         'messages (tag lengths 4..16). ccm: br_ccm_reset over nonce_len 0..20 x tag_len 0..20 x boundary '
         'aad/data lengths against the documented rule; declared != actual lengths. edge: crafted nonces '
         'putting the GCM 32-bit counter / EAX 128-bit counter just below wrap, AAD 65279..70000, message '
-        '4113..65541. A case is distinct by (mode, impl, key size) x (AAD mod 16, message mod 16).')
+        '4113..65541. lenblock (model-level): per GCM implementation pair, count_aad and/or count_ctr advanced by 2^29*k bytes '
+        '(k in 1, 8, 15) after flip, tag against a bit-by-bit GHASH with those lengths in the final block. A case is distinct by (mode, impl, key size) x (AAD mod 16, message mod 16).')
 ASSUMPTIONS = [
     'OpenSSL 3.0 EVP AES-GCM (IV length 1..64), AES-CCM, AES-CTR, AES-ECB and EVP_MAC CMAC are correct',
     'the EAX reference (h_aead_ref.c) follows the EAX paper; it is validated at every start against four test vectors of the paper',
     'EVP AES-CCM and the direct RFC 3610 implementation must agree on every CCM case up to 2048 bytes, otherwise the run aborts (harness assert)',
     'tag-forgery cases where check_tag returns 1 are re-judged with the reference, so genuine collisions of short tags are not reported',
+    'GCM lengths of 2^29 bytes and more are reached by adding to br_gcm_context.count_aad / count_ctr (fields declared in bearssl_aead.h) '
+    'after br_gcm_flip(); the expected tag is SP 800-38D GHASH written bit by bit in h_aead_ref.c, tied to OpenSSL for the true lengths in every case',
     'violations on EAX schedules where one br_eax_aad_inject call completes a partial block and carries more bytes get the key suffix :aad-straddle (input class)',
 ]
 EVAL = ['cmp_ref_enc', 'cmp_roundtrip', 'cmp_split_rand', 'cmp_flip_rand', 'cmp_split2_aad',
         'cmp_split2_msg_enc', 'cmp_split2_msg_dec', 'cmp_flip', 'cmp_flip_baseline',
         'cmp_trunc_ignores_rest', 'cmp_ccm_reset', 'cmp_ccm_declared', 'cmp_ccm_after_refusal',
-        'cmp_edge_wrap', 'cmp_edge_long']
+        'cmp_edge_wrap', 'cmp_edge_long', 'cmp_gcm_length_block']
 DISTINCT = ['impl_residue']
 REQUIRED = ['cmp_ref_enc', 'cmp_roundtrip', 'cmp_split_rand', 'cmp_flip_rand', 'cmp_split2_aad',
             'cmp_split2_msg_enc', 'cmp_split2_msg_dec', 'cmp_flip', 'flips_nonce', 'flips_aad',
             'flips_ct', 'flips_tag', 'cmp_trunc_ignores_rest', 'cmp_ccm_reset',
             'ccm_reset_expected_accept', 'ccm_reset_expected_refuse', 'cmp_ccm_declared',
             'cmp_ccm_after_refusal', 'cmp_reuse', 'cmp_eax_pre', 'cmp_eax_post', 'cmp_eax_capture_const',
-            'cmp_edge_wrap', 'cmp_edge_long', 'edge_gcm_wrap_hit', 'edge_eax_wrap_hit', 'ref_eax_kat_ok']
+            'cmp_edge_wrap', 'cmp_edge_long', 'edge_gcm_wrap_hit', 'edge_eax_wrap_hit', 'ref_eax_kat_ok',
+            'cmp_gcm_length_block']
 
 N = 16
 PARAMS = {
